@@ -9,6 +9,7 @@ struct EigenAssert : std::logic_error { EigenAssert(const char* s) : std::logic_
 #include <Eigen/Core>
 #include <Eigen/QR>
 #include <cstdio>
+#include <complex>
 #include <cstring>
 #include <vector>
 #include <algorithm>
@@ -86,6 +87,53 @@ static void mode_history() {
     DenseGenRealShiftSolve<double> sop(G); GenEigsRealShiftSolver<DenseGenRealShiftSolve<double>> s(sop, 3, 9, 0.2); s.init(); s.compute(SortRule::LargestMagn); s.compute(SortRule::LargestMagn);
     Eigen::VectorXcd sv = s.eigenvalues(); Eigen::MatrixXcd SV = s.eigenvectors(); for (Index i = 0; i < sv.size(); i++) if ((G * SV.col(i) - sv[i] * SV.col(i)).norm() > 1e-6 * G.norm()) { fail("real-shift solver: second compute() returns values that are not eigenvalues of A"); break; } }
 }
+// shift solvers: the returned values must follow the `sorting` rule for EVERY (selection, sorting) pair, also sorting == selection
+static void mode_shift_order() {
+  const SortRule rules[4] = {SortRule::LargestMagn, SortRule::LargestAlge, SortRule::SmallestMagn, SortRule::SmallestAlge};
+  const int n = 30; Mat A = Mat::Zero(n, n); for (int i = 0; i < n; i++) A(i, i) = (i % 2 ? -1.0 : 1.0) * (1.0 + 0.7 * i); A(0, 1) = A(1, 0) = 0.1;
+  Mat G = A; G(2, 5) = 0.3;   // non-symmetric, real spectrum perturbed
+  for (int si = 0; si < 4; si++) for (int so = 0; so < 4; so++) {
+    { DenseSymShiftSolve<double> op(A); SymEigsShiftSolver<DenseSymShiftSolve<double>> s(op, 4, 12, 0.37); s.init(); s.compute(rules[si], 1000, 1e-10, rules[so]);
+      Vec ev = s.eigenvalues(); for (Index i = 0; i + 1 < ev.size(); i++) if (key(rules[so], ev[i + 1]) < key(rules[so], ev[i]) - 1e-12) { char b[200]; snprintf(b, sizeof b, "SymEigsShiftSolver: eigenvalues() not in the order of the sorting rule (selection=%d sorting=%d)", si, so); fail(b); break; } }
+    { const SortRule grules[4] = {SortRule::LargestMagn, SortRule::LargestReal, SortRule::SmallestMagn, SortRule::SmallestReal};
+      DenseGenRealShiftSolve<double> op(G); GenEigsRealShiftSolver<DenseGenRealShiftSolve<double>> s(op, 4, 12, 0.37); s.init(); s.compute(grules[si], 1000, 1e-10, grules[so]);
+      Eigen::VectorXcd ev = s.eigenvalues(); auto ck = [&](std::complex<double> z) { switch (grules[so]) { case SortRule::LargestMagn: return -std::abs(z); case SortRule::SmallestMagn: return std::abs(z); case SortRule::LargestReal: return -z.real(); default: return z.real(); } };
+      for (Index i = 0; i + 1 < ev.size(); i++) if (ck(ev[i + 1]) < ck(ev[i]) - 1e-12) { char b[200]; snprintf(b, sizeof b, "GenEigsRealShiftSolver: eigenvalues() not in the order of the sorting rule (selection=%d sorting=%d)", si, so); fail(b); break; } }
+  }
+}
+// reused object, re-initialised with an EXACT eigenvector (the "f is negligible" branch of Arnoldi::init): must be bit-identical to a fresh object
+static void mode_reuse_exact() {
+  const int n = 16; Mat A = Mat::Zero(n, n); for (int i = 0; i < n; i++) { A(i, i) = 1; A(i, (i + 1) % n) += 2; A((i + 1) % n, i) += 2; }   // constant row sum 5: ones is an eigenvector
+  Vec ones = Vec::Ones(n);
+  { Op<true> o1(A), o2(A); SymEigsSolver<Op<true>> e(o1, 3, 8), f(o2, 3, 8);
+    e.init(); e.compute(SortRule::LargestAlge, 3, 1e-10); e.init(ones.data()); Index r1 = e.compute(SortRule::LargestAlge, 500, 1e-10);
+    f.init(ones.data()); Index r2 = f.compute(SortRule::LargestAlge, 500, 1e-10);
+    if (r1 != r2 || e.num_operations() != f.num_operations() || e.num_iterations() != f.num_iterations() || e.eigenvalues().size() != f.eigenvalues().size() || (e.eigenvalues().size() && (e.eigenvalues() - f.eigenvalues()).norm() != 0) || (e.eigenvectors() - f.eigenvectors()).norm() != 0)
+      fail("symmetric solver: reused object re-initialised with an exact eigenvector differs from a fresh object (state of the earlier run survives init())"); }
+  { Mat G = A; G(0, 1) += 1; G(0, 2) -= 1;   // still constant row sums, non-symmetric
+    Op<false> o1(G), o2(G); GenEigsSolver<Op<false>> e(o1, 3, 9), f(o2, 3, 9);
+    e.init(); e.compute(SortRule::LargestMagn, 3, 1e-10); e.init(ones.data()); Index r1 = e.compute(SortRule::LargestMagn, 500, 1e-10);
+    f.init(ones.data()); Index r2 = f.compute(SortRule::LargestMagn, 500, 1e-10);
+    if (r1 != r2 || e.num_operations() != f.num_operations() || e.num_iterations() != f.num_iterations() || e.eigenvalues().size() != f.eigenvalues().size() || (e.eigenvalues().size() && (e.eigenvalues() - f.eigenvalues()).norm() != 0))
+      fail("general solver: reused object re-initialised with an exact eigenvector differs from a fresh object (state of the earlier run survives init())"); }
+}
+// breakdown followed by ordinary steps in the same factorization: start vector inside a small invariant subspace
+static void mode_breakdown() {
+  for (int n : {12, 20}) for (int blk : {2, 3, 4}) {
+    Mat G = Mat::Zero(n, n); for (int i = 0; i < n; i++) for (int j = 0; j < n; j++) if ((i < blk) == (j < blk)) G(i, j) = ((i * 7 + j * 3) % 5) - 1.5 + (i == j ? 3.0 + i : 0.0);   // block diagonal: e1 stays in the leading block
+    Vec e1 = Vec::Zero(n); e1[0] = 1;
+    Op<false> op(G);
+    try { GenEigsSolver<Op<false>> s(op, 3, 8); s.init(e1.data()); s.compute(SortRule::LargestMagn, 300, 1e-10);
+      if (s.info() == CompInfo::Successful) { Eigen::VectorXcd ev = s.eigenvalues(); Eigen::MatrixXcd V = s.eigenvectors();
+        for (Index i = 0; i < ev.size(); i++) { double r = (G.cast<std::complex<double>>() * V.col(i) - ev[i] * V.col(i)).norm(); if (!(r <= 1e-6 * (1 + G.norm()))) { fail("general solver after an Arnoldi breakdown: a pair reported as converged is not an eigenpair (residual " + std::to_string(r) + ")"); break; } } }
+    } catch (const EigenAssert& a) { fail(std::string("general solver after a breakdown: Eigen assertion: ") + a.what()); } catch (const std::exception&) {}
+    Mat S = 0.5 * (G + G.transpose()); Op<true> sop(S);
+    try { SymEigsSolver<Op<true>> s(sop, 3, 8); s.init(e1.data()); s.compute(SortRule::LargestAlge, 300, 1e-10);
+      if (s.info() == CompInfo::Successful) { Vec ev = s.eigenvalues(); Mat V = s.eigenvectors();
+        for (Index i = 0; i < ev.size(); i++) { double r = (S * V.col(i) - ev[i] * V.col(i)).norm(); if (!(r <= 1e-6 * (1 + S.norm()))) { fail("symmetric solver after a Lanczos breakdown: a pair reported as converged is not an eigenpair"); break; } } }
+    } catch (const EigenAssert& a) { fail(std::string("symmetric solver after a breakdown: Eigen assertion: ") + a.what()); } catch (const std::exception&) {}
+  }
+}
 static void mode_selection() {
   const int n = 40; Mat A = Mat::Zero(n, n); std::vector<double> spec; for (int i = 0; i < n; i++) { double v = (i % 2 ? -1 : 1) * (1.0 + 0.5 * i); A(i, i) = v; spec.push_back(v); }
   const SortRule sels[5] = {SortRule::LargestMagn, SortRule::LargestAlge, SortRule::SmallestMagn, SortRule::SmallestAlge, SortRule::BothEnds};
@@ -123,10 +171,11 @@ static void mode_safety() {
         for (Index i = 0; i < ev.size(); i++) if (!std::isfinite(ev[i].real()) || !std::isfinite(ev[i].imag())) { fail("general solver returned a non-finite eigenvalue"); break; }
         if (op.calls > 2 + 2L * ncv * 31) fail("general solver exceeded its work bound"); }
       catch (const EigenAssert& a) { fail(std::string("general solver: Eigen index assertion inside compute(): ") + a.what()); }
-      catch (const std::exception&) {} }
+      catch (const std::exception& ex) { if (mi == 2) fail(std::string("general solver on a rank-one matrix: compute() fails (a breakdown must be continued with a fresh direction): ") + ex.what()); } }
     Mat A = symmat(n, 2, seed); Mat P = Mat::Zero(n, n); P(3, 3) = 2.0;
     for (const Mat* m : {&A, &P}) { Op<true> op(*m); try { SymEigsSolver<Op<true>> e(op, 2, 6); e.init(); e.compute(SortRule::LargestAlge, 30, 1e-10); Vec ev = e.eigenvalues(); for (Index i = 0; i < ev.size(); i++) if (!std::isfinite(ev[i])) { fail("symmetric solver returned a non-finite eigenvalue"); break; } }
-      catch (const EigenAssert& a) { fail(std::string("symmetric solver: Eigen index assertion inside compute(): ") + a.what()); } catch (const std::exception&) {} } }
+      catch (const EigenAssert& a) { fail(std::string("symmetric solver: Eigen index assertion inside compute(): ") + a.what()); }
+      catch (const std::exception& ex) { if (m == &P) fail(std::string("symmetric solver on a rank-one matrix: compute() fails (a breakdown must be continued with a fresh direction): ") + ex.what()); } } }
 }
 int main(int argc, char** argv) {
   std::string m = argc > 1 ? argv[1] : "all";
@@ -135,7 +184,9 @@ int main(int argc, char** argv) {
     if (m == "history" || m == "all") mode_history();
     if (m == "selection" || m == "all") mode_selection();
     if (m == "faults" || m == "all") mode_faults();
-    if (m == "safety" || m == "all") mode_safety();
+    if (m == "safety" || m == "all") { mode_safety(); mode_breakdown(); }
+    if (m == "history" || m == "all") { mode_reuse_exact(); mode_breakdown(); }
+    if (m == "counts" || m == "selection" || m == "all") mode_shift_order();
   } catch (const EigenAssert& a) { fail(std::string("Eigen assertion: ") + a.what()); }
   printf(bad ? "REPRODUCED (%d)\n" : "not reproduced (%d)\n", bad); return bad ? 1 : 0;
 }
